@@ -706,11 +706,11 @@ def replay(steps, kind='local', keep_l=True, keep_r=True,
         if not w.cut_done and cut_at is None:
             w.drain()
             w.check_quiescent()
+        res['obs'] = _brief(w.observe())
         if not w.cut_done:
             w.finish(finish)
         res['l1'] = list(w.l1)
         res['script'] = w.script
-        res['obs'] = _brief(w.observe())
         res['loop_exceptions'] = w.loop_exceptions()
         res['features'] = features(w)
     finally:
@@ -753,10 +753,10 @@ def replay_coarse(labels, kind='local', keep_l=True, keep_r=True,
             w.do(lbl)
         w.loop.run_until_idle()
         w.check_quiescent()
+        res['obs'] = _brief(w.observe())
         w.finish(finish)
         res['l1'] = list(w.l1)
         res['script'] = w.script
-        res['obs'] = _brief(w.observe())
         res['loop_exceptions'] = w.loop_exceptions()
         res['features'] = features(w)
     finally:
